@@ -107,7 +107,8 @@ def _run_shard(task):
     try:
         part.run(ctx)
     except Violation as v:
-        viol = {"check": v.check, "message": v.message, "case": v.case, "signature": v.signature}
+        viol = {"check": v.check, "message": v.message, "case": v.case, "signature": v.signature,
+                "drawn": getattr(v, "drawn", None)}
     except BaseException as e:  # noqa: BLE001
         tb = e.__traceback__
         # Hypothesis may wrap (chained exceptions, or an ExceptionGroup such as FlakyFailure when a
@@ -118,7 +119,7 @@ def _run_shard(task):
             viol = {"check": found.check, "message": found.message + (
                 "\n(observed once; Hypothesis could not reproduce it on replay - schedule dependent)"
                 if flaky and type(e).__name__.startswith("Flaky") else ""),
-                "case": found.case, "signature": found.signature}
+                "case": found.case, "signature": found.signature, "drawn": getattr(found, "drawn", None)}
         if viol is None:
             if isinstance(e, (KeyboardInterrupt, SystemExit, HarnessError)):
                 err = traceback.format_exc()
@@ -144,6 +145,14 @@ def _write_replay(prop: str, viol: dict, seed: int, tier: str, part: str) -> str
     os.makedirs(d, exist_ok=True)
     payload = {"property": prop, "part": part, "check": viol["check"], "message": viol["message"],
                "case": viol["case"], "seed": seed, "tier": tier, "signature": viol.get("signature")}
+    # the generated case the part's check function was called with, when the reported case is a description of
+    # the failure in another shape (replay tries both)
+    if viol.get("drawn") is not None and viol.get("drawn") != viol["case"]:
+        try:
+            json.dumps(viol["drawn"])
+            payload["drawn"] = viol["drawn"]
+        except Exception:  # noqa: BLE001
+            pass
     try:
         body = json.dumps(payload, indent=1, sort_keys=True, default=repr, ensure_ascii=True)
     except Exception:  # noqa: BLE001
@@ -172,20 +181,29 @@ def do_replay(prop: str, path: str) -> int:
     known = core.load_known_findings().get(prop, {})
     ctx = Ctx(prop, part.name, payload.get("tier", "quick"), int(payload.get("seed", 0)), 0, 1,
               known, replay=True)
-    ctx.current = payload["case"]
-    try:
-        part.check(ctx, payload["case"])
-    except Violation as v:
-        out(f"replay: {v}")
-        out(f"VIOLATION property={prop} replay={path}")
-        return 1
-    except BaseException as e:  # noqa: BLE001
-        if core.tb_touches_lib(e.__traceback__):
-            out(f"replay: unexpected {type(e).__name__}: {e}")
+    # "drawn" is the generated case the part's check function was called with; "case" may describe the failure in
+    # another shape (missing the parameters the check function defaults), so it is only used when nothing else is
+    # recorded (regress/ files, older replay files)
+    candidates = [payload["drawn"]] if payload.get("drawn") is not None else [payload["case"]]
+    harness_errors = 0
+    for cand in candidates:
+        ctx.current = cand
+        try:
+            part.check(ctx, cand)
+        except Violation as v:
+            out(f"replay: {v}")
             out(f"VIOLATION property={prop} replay={path}")
             return 1
-        traceback.print_exc()
-        return 2
+        except BaseException as e:  # noqa: BLE001
+            if core.tb_touches_lib(e.__traceback__):
+                out(f"replay: unexpected {type(e).__name__}: {e}")
+                out(f"VIOLATION property={prop} replay={path}")
+                return 1
+            # the recorded case is not in the shape this part's check function takes: try the drawn one
+            harness_errors += 1
+            if cand is candidates[-1] and harness_errors == len(candidates):
+                traceback.print_exc()
+                return 2
     for sig, n in ctx.known_hits.items():
         out(f"KNOWN-FINDING: property={prop} {sig} {known.get(sig, '')}")
     out(f"replay: no violation for {path}")
